@@ -900,7 +900,7 @@ func c08ProbeF33(r *Result) {
 func init() {
 	register("C08", func(r *Result, rng *rand.Rand, tier string) {
 		c08ProbeF33(r)
-		n := map[string]int{"quick": 110, "thorough": 1500, "search": 500}[tier]
+		n := map[string]int{"quick": 110, "thorough": 5000, "search": 500}[tier]
 		for i := 0; i < n && !expired(); i++ {
 			c08AssocWorld(r, rng.Int63())
 		}
